@@ -16,7 +16,7 @@ import (
 
 func TestC11(t *testing.T) {
 	rapid.Check(t, func(t *rapid.T) {
-		sch := genSchema(t, SchemaCfg{Key: 0, Merges: true, EnsureLenMerge: true, MinCols: 2, MaxCols: 6})
+		sch := genSchema(t, SchemaCfg{Key: 1, Merges: true, EnsureLenMerge: true, MinCols: 2, MaxCols: 6}) // one schema in three has a key column (round 10): inserts are InsertKey with fresh keys there
 		log := &recLogger{}
 		mc := NewMachine("C11", sch, column.Options{Writer: log})
 		defer mc.Close()
@@ -31,7 +31,7 @@ func TestC11(t *testing.T) {
 				return
 			}
 			for i, st := range spec.Steps {
-				if st.Kind != SInsert || st.Fail || !res[i].Ran {
+				if (st.Kind != SInsert && st.Kind != SInsertKey) || st.Fail || !res[i].Ran {
 					continue
 				}
 				held, was := mc.prevDeleted[res[i].Offset]
@@ -74,6 +74,9 @@ func TestC11(t *testing.T) {
 				// one insert storing into at most one column, then every column of the fresh row is read
 				mc.snapshotDeleted()
 				st := Step{Kind: SInsert, Stores: genStores(t, mc.M, cfg, 0, 1, "one")}
+				if mc.Sch.Key >= 0 {
+					st.Kind, st.Key = SInsertKey, fmt.Sprintf("one%d_%d", len(mc.M.Rows), rapid.IntRange(0, 1<<30).Draw(t, "fresh-key"))
+				}
 				eff, committed := mc.RunTxn(t, TxnSpec{Steps: []Step{st}, FailAt: -1}, rapid.Bool().Draw(t, "direct"))
 				if committed {
 					mc.CheckRows(t, eff.Inserted, ReadRowTyped, ReadRowAny)
